@@ -7,6 +7,7 @@
    of the correspondence). *)
 From Coq Require Import ZArith List Bool.
 From Verif Require Import Lib.Sx Lib.PyStr Lib.PyStr3 Lib.Facts Model.Framing Model.Parsers Proofs.Parsers.
+From Verif Require Import Proofs.ParsersExact.
 From Verif Require Import Gen.Dispatch.
 Import ListNotations.
 Open Scope Z_scope.
@@ -206,6 +207,117 @@ Theorem C19_model_ladder_is_source_ladder :
   ladder_of_facts (d_task_except dispatcher) (d_outer_except dispatcher) = Some ladder_as_read.
 Proof. vm_compute. reflexivity. Qed.
 Print Assumptions C19_model_ladder_is_source_ladder.
+
+(* ---- the lister at full strength ("never hangs or loops forever") ---- *)
+(* the client's work is bounded by what the server sent: it never yields more entries than it
+   received lines, and never asks for more directories than the script answers plus the one refused *)
+Theorem C19_lister_work_bounded :
+  forall (L : Type) (parse : bool -> L -> result (text * dict)) rec path (sc : script L),
+    let r := run_lister L parse rec path sc in
+    (length (yields r) <= total_lines L sc)%nat /\ (length (requests r) <= S (length sc))%nat.
+Proof. exact lister_work_bounded. Qed.
+Print Assumptions C19_lister_work_bounded.
+
+(* ANY server, including one that never refuses (srv k = its answer to the k-th MLSD/LIST
+   request, every answer a finite listing, any line parser, any content): cut after n answers,
+   Client.list has terminated, and either it ends in exactly the same way -- same entries, same
+   requests, same outcome -- whatever the server would have answered later, or it has consumed
+   all n answers and asked for one more.  Hence the client runs on only for as long as the
+   peer keeps answering requests; it never spins on its own. *)
+Theorem C19_lister_against_any_server :
+  forall (L : Type) (parse : bool -> L -> result (text * dict)) (srv : nat -> bool * list L) rec path n,
+    let r := run_lister L parse rec path (server_prefix L srv n) in
+    ending r <> LFuel
+    /\ (length (requests r) = S n
+        \/ forall m, (n <= m)%nat -> run_lister L parse rec path (server_prefix L srv m) = r).
+Proof. exact lister_against_any_server. Qed.
+Print Assumptions C19_lister_against_any_server.
+
+(* ---- value-exactness on well-formed input: "returns well-typed results" made precise ----
+   For EVERY well-formed line built from arbitrary components the parser returns exactly those
+   components (not merely some value of the right type). *)
+
+(* MLSx: k1=v1;...;kn=vn; SP name EOL -- keys without SP ; =, values without SP ;, at least one
+   fact, a non-empty name without trailing whitespace: the path is PurePosixPath(name) and the
+   dict holds exactly the facts, keys lower-cased, later duplicates winning *)
+Theorem C19_mlsx_line_exact :
+  forall dec b (fs : list (text * text)) name eol,
+    dec b = Some (mlsx_facts fs ++ SP :: name ++ eol) ->
+    fs <> [] -> Forall fact_ok fs -> name <> [] -> rstrip name = name -> forallb is_space eol = true ->
+    parse_mlsx_line dec b = Ok (posix_norm name, facts_dict fs).
+Proof. exact mlsx_line_exact. Qed.
+Print Assumptions C19_mlsx_line_exact.
+
+(* EPSV: text (|||port|) text, no other left parenthesis: exactly the port *)
+Theorem C19_epsv_exact :
+  forall pre ds post,
+    no 40 pre -> no 40 post ->
+    ds <> [] -> forallb is_ascii_digit ds = true -> Z.of_nat (length ds) <= int_max_str_digits ->
+    parse_epsv_response (epsv_text pre ds post) = Ok (int_of_ascii_digits ds).
+Proof. exact epsv_exact. Qed.
+Print Assumptions C19_epsv_exact.
+
+(* PASV: text (h1,h2,h3,h4,p1,p2) text: the dotted host and p1 * 256 | p2 *)
+Theorem C19_pasv_exact :
+  forall pre d1 d2 d3 d4 d5 d6 post,
+    no 40 pre -> Forall digits_ok [d1; d2; d3; d4; d5; d6] ->
+    parse_pasv_response (pasv_text pre [d1; d2; d3; d4; d5; d6] post)
+    = Ok (join [DOT] (map (fun d => str_of_Z (int_of_ascii_digits d)) [d1; d2; d3; d4]),
+          Z.lor (Z.shiftl (int_of_ascii_digits d5) 8) (int_of_ascii_digits d6)).
+Proof. exact pasv_exact. Qed.
+Print Assumptions C19_pasv_exact.
+
+(* 257: text "path with doubled quotes" text: exactly the path, for every path in which a
+   double quote is followed by a character other than a double quote (dq_ok) *)
+Theorem C19_directory_exact :
+  forall pre d post,
+    no 34 pre -> dq_ok d -> (forall r, post <> 34 :: r) ->
+    parse_directory_response (pre ++ 34 :: dq_escape d ++ 34 :: post) = posix_norm d.
+Proof. exact directory_exact. Qed.
+Print Assumptions C19_directory_exact.
+
+(* unix `ls -l` line (not a symbolic link): type char, nine mode characters that
+   parse_unix_mode accepts, link count and size as ASCII digits, owner and group without SP,
+   a 12-character date, a name without leading/trailing whitespace, fields separated by one SP:
+   exactly these fields, the date being whatever parse_ls_date makes of the 12 characters *)
+Theorem C19_unix_line_exact :
+  forall dec ls_date t m links owner group size date name eol mode b,
+    dec b = Some (unix_line t m links owner group size date name ++ eol) ->
+    forallb is_space eol = true ->
+    length m = 9%nat -> parse_unix_mode m = Ok mode ->
+    links <> [] /\ forallb is_ascii_digit links = true ->
+    size <> [] /\ forallb is_ascii_digit size = true ->
+    headns owner /\ no SP owner -> headns group /\ no SP group ->
+    length date = 12%nat /\ headns date ->
+    name <> [] /\ headns name /\ rstrip name = name ->
+    t <> 108 ->
+    parse_list_line_unix dec ls_date b
+    = bind (ls_date (strip date))
+           (fun modify => Ok (posix_norm name,
+              [(k_type, ty_of t); (k_mode, str_of_Z mode); (k_links, links); (k_owner, owner);
+               (k_group, group); (k_size, size); (k_modify, modify)])).
+Proof. exact unix_line_exact. Qed.
+Print Assumptions C19_unix_line_exact.
+
+(* int() on a run of at most 4300 ASCII digits is its decimal value (used by the two above) *)
+Theorem C19_int_ascii_digits :
+  forall ds, ds <> [] -> forallb is_ascii_digit ds = true -> Z.of_nat (length ds) <= int_max_str_digits ->
+    py_int ds = Some (int_of_ascii_digits ds).
+Proof. exact py_int_ascii_digits. Qed.
+Print Assumptions C19_int_ascii_digits.
+
+(* non-vacuity of the hypotheses of the exactness theorems: concrete lines that satisfy them
+   (Proofs/ParsersExact.v: mlsx_exact_example, epsv_exact_example, pasv_exact_example,
+   directory_exact_example, unix_line_exact_example are proved BY the theorems), and a server
+   that never refuses, against which the client keeps asking (endless_server_example) *)
+Example C19_unix_line_exact_nonvacuous :
+  parse_list_line_unix utf8 (fun _ => Ok [50; 48])
+    (unix_line 100 [114; 119; 120; 114; 45; 120; 114; 45; 120] [50] [111] [103] [52; 48; 57; 54]
+               [78; 111; 118; 32; 49; 56; 32; 49; 50; 58; 50; 57] [115; 117; 98] ++ [13; 10])
+  = Ok ([115; 117; 98],
+        [(k_type, t_dir); (k_mode, [52; 57; 51]); (k_links, [50]); (k_owner, [111]); (k_group, [103]);
+         (k_size, [52; 48; 57; 54]); (k_modify, [50; 48])]).
+Proof. exact unix_line_exact_example. Qed.
 
 (* non-vacuity *)
 Example C19_unix_line_parses :
